@@ -13,7 +13,7 @@ EXPLANATION = (
     "(R1) exactly-once nodes: a component is added in the cluster loop iff grouping is on and its group is non-empty, in "
     "the flat loop iff the complement (conditions compared as truth tables), both loops range over the 'nodes' registry, the "
     "cluster set is exactly the non-empty values of the 'groups' registry; there is one edge per graph edge with endpoints "
-    "mapped through the inverse of 'nodes'; the only extra node is the legend, only when a loss frame is given; (R2) "
+    "mapped through the inverse of 'nodes' and never filed in a mapping under one of their endpoints; the only extra node is the legend, only when a loss frame is given; (R2) "
     "override precedence: default (deep copy) -> component kind (class name of the node's own payload) -> component name; "
     "clusters: default -> group name; (R3) no mutation of the caller's configuration or the module defaults (shared with "
     "C17-R1); (R4) heat: _gcolor(m) == (1-m)*cold + m*warm, Mix == loss/max(loss) with max := 1 exactly when it is 0, the "
